@@ -338,6 +338,22 @@ func (e *Exec) opaqueError(msg string) Value {
 	return Iface{t: types.NewPointer(st), v: &Ptr{obj: obj}}
 }
 
+// pureIntrinsic: intrinsics that may run during speculative (if-conversion) evaluation.
+func pureIntrinsic(fn *ssa.Function, name string) bool {
+	if strings.HasPrefix(fn.Name(), "vx") {
+		return true // the vx wrapper has its own whitelist
+	}
+	switch name {
+	case "(time.Time).Add", "(time.Time).Sub", "(time.Time).Before", "(time.Time).After", "(time.Time).Equal",
+		"(time.Time).IsZero", "(time.Time).UnixNano", "fmt.Sprintf", "fmt.Sprint", "fmt.Sprintln":
+		return true
+	}
+	if fn.Name() == "init" {
+		return true
+	}
+	return false
+}
+
 // ---------- calls ----------
 
 func (e *Exec) callValue(fv Value, args []Value, pos token.Pos) Value {
@@ -361,6 +377,10 @@ func (e *Exec) callValue(fv Value, args []Value, pos token.Pos) Value {
 func (e *Exec) callFunc(fn *ssa.Function, args []Value, free []Value, pos token.Pos) Value {
 	name := fn.String()
 	if h := e.eng.lookupIntrinsic(fn, name); h != nil {
+		if e.spec > 0 && !pureIntrinsic(fn, name) {
+			// models with side effects (hash state, mutexes, pools, UF applications, ...) must not run speculatively
+			panic(specAbort{"intrinsic with side effects"})
+		}
 		if r := h(e, fn, args, pos); r != Value(notHandled) {
 			return r
 		}
